@@ -31,6 +31,8 @@ Conforms(e) ==
     IF e.op = "delta_angle"
     THEN /\ -PI16 - 4 <= e.r /\ e.r <= PI16 + 4
          /\ Abs(e.r - (e.hi - e.x) - e.k * TAU16) <= 16
+         \* target - self is exactly half a turn (flagged by the driver): the interval is (-pi, pi], the answer is +pi
+         /\ ("half" \in DOMAIN e => e.r > 0)
     ELSE IF e.op = "wrap_2pi"      \* in [0, 2 pi) and congruent to the input modulo 2 pi (k whole turns removed)
     THEN /\ -4 <= e.r /\ e.r <= TAU16 + 4
          /\ Abs(e.x - e.r - e.k * TAU16) <= 16
